@@ -186,23 +186,34 @@ func matchesContentType(ct string, allowed []string) bool {
 	return false
 }
 
+// configInt reads a numeric plugin option. YAML decodes "5" as int and "5.0" as float64
+// (JSON always gives float64), so both are accepted.
+func configInt(v interface{}) (int, bool) {
+	switch n := v.(type) {
+	case int:
+		return n, true
+	case int64:
+		return int(n), true
+	case float64:
+		return int(n), true
+	}
+	return 0, false
+}
+
 func parseGzipConfig(cfg map[string]interface{}) (int, int, []string, error) {
-	// numbers are unmarshalled into float64 by default
-	levelFloat, ok := cfg["level"].(float64)
+	level, ok := configInt(cfg["level"])
 	if !ok {
 		return 0, 0, nil, fmt.Errorf("expected level for gzip config")
 	}
-	level := int(levelFloat)
 	// Allow -1 (DefaultCompression), 0 (NoCompression), or 1-9
 	if level < -1 || level > 9 {
 		return 0, 0, nil, fmt.Errorf("compression level must be between -1 and 9, got %d", level)
 	}
 
-	minSizeFloat, ok := cfg["min_size"].(float64)
+	minSize, ok := configInt(cfg["min_size"])
 	if !ok {
 		return 0, 0, nil, fmt.Errorf("expected min_size for gzip config")
 	}
-	minSize := int(minSizeFloat)
 
 	rawTypes, ok := cfg["content_types"].([]interface{})
 	if !ok {
